@@ -38,7 +38,16 @@ def programs(tier, seed):
     dag2 = (f"({D}.select_rows('x > 0').select_columns(['g'])).natural_join(b=({D}.select_rows('x > 0').project({{'m': 'y.max()'}}, group_by=['g'])), on=['g'], jointype='inner')")
     dk = f"{D}.natural_join(b={progs.K}, on=[('g', 'k')], jointype='left').select_columns(['x', 'z'])"
     dk2 = f"{D}.natural_join(b={progs.K}, on=[('g', 'k')], jointype='inner').project({{'n': '_size()'}})"
-    for label, src in (("shared_dag", dag), ("shared_dag_filter", dag2), ("diffkey_then_select", dk), ("diffkey_then_count", dk2),
+    # the same node OBJECT feeding two branches (a textual copy would be a different object): built through a lambda
+    shared1 = (f"(lambda base: base.select_columns(['g', 'z']).natural_join(b=base.project({{'y_max': 'y.max()'}}, group_by=['g']), on=['g'], jointype='left'))"
+               f"({D}.extend({{'z': 'x + 1'}}))")
+    shared2 = (f"(lambda base: base.project({{'s': 'x.sum()'}}, group_by=['g']).natural_join(b=base.project({{'m': 'y.max()'}}, group_by=['g']), on=['g'], jointype='inner'))"
+               f"({D}.select_rows('x > 0'))")
+    shared3 = (f"(lambda base: base.select_columns(['g', 'x']).concat_rows(b=base.select_columns(['g', 'y']).rename_columns({{'x': 'y'}}), id_column=None))"
+               f"({D}.extend({{'w': 'x + y'}}))")
+    shared4 = (f"(lambda base: base.drop_columns(['y']).natural_join(b=base.order_rows(['y'], limit=1).select_columns(['g', 'y']), on=['g'], jointype='left'))({D})")
+    for label, src in (("shared_obj_select_vs_project", shared1), ("shared_obj_two_projects", shared2), ("shared_obj_concat", shared3), ("shared_obj_limit", shared4),
+                       ("shared_dag", dag), ("shared_dag_filter", dag2), ("diffkey_then_select", dk), ("diffkey_then_count", dk2),
                        ("window_then_select", f"{D}.extend({{'r': '_row_number()'}}, partition_by=['g'], order_by=['y']).select_columns(['x', 'r'])"),
                        ("order_limit_then_select", f"{D}.order_rows(['y'], limit=1).select_columns(['x'])"),
                        ("filter_then_select", f"{D}.select_rows('y > 0').select_columns(['x'])"),
